@@ -179,6 +179,11 @@ def dispatch_v6(
 
     # Some handlers require all peers if none specified
     if handler in _v6_needs_peers() and not peers:
+        # "rib flush/clear" carry no selector and apply to every peer of the service, but
+        # "peer <selector> ..." only gets here when its selector matched nobody: that is an
+        # error, not an invitation to apply the command to everybody
+        if token_list[0] == 'peer':
+            raise NoMatchingPeers(command)
         peers = list(reactor.peers(service))
         if not peers:
             raise NoMatchingPeers(command)
